@@ -54,7 +54,9 @@ def inventory(repo, res):
     look = [n for n in walk_no_nested(new.node) if isinstance(n, ast.If) and "registry._unit_object_cache" in norm(n.test)]
     res.check(len(look) == 1 and norm(look[0].test) == "registry and unit_expr in registry._unit_object_cache", "unit-cache-lookup", new.where(), "the cache is consulted per registry", rid=r1)
     # derived rows
-    lk = repo.mod(REG).func("_lookup_unit_symbol")
+    from rules.anchors import lookup_symbol
+
+    lk = lookup_symbol(repo)
     res.fn(lk)
     wb = [norm(n) for n in walk_no_nested(lk.node) if isinstance(n, ast.Assign) and isinstance(n.targets[0], ast.Subscript)]
     res.check(wb == [f"{lk.params[1]}[{lk.params[0]}] = ret"], "derived-rows-writer", lk.where(), "prefixed rows are written back into the table under prefix+symbol", found=wb, rid=r1)
@@ -62,9 +64,26 @@ def inventory(repo, res):
     reg = repo.mod(REG)
     pid = reg.func("UnitRegistry.unit_system_id")
     res.fn(pid)
-    txt = norm(pid.node)
-    ok = "if self._unit_system_id is None" in txt and "for k, v in sorted(self.lut.items())" in txt and "hash_data.extend(k.encode('utf8'))" in txt and "hash_data.extend(repr(v).encode('utf8'))" in txt
-    res.check(ok, "registry-id", pid.where(), "the registry id is a digest of the sorted table contents, recomputed whenever the memo is None", rid=r1)
+    from engine.pat import find_all
+    from engine.sem import cnorm, summarise
+
+    b = find_all(pid.node, [
+        "__h.extend(__k.encode('utf8'))",
+        "__h.extend(repr(__v).encode('utf8'))",
+        "__m = md5()",
+        "__m.update(__h)",
+        "self._unit_system_id = str(__m.hexdigest())",
+    ])
+    ok = b is not None
+    if ok:
+        loops = [n for n in ast.walk(pid.node) if isinstance(n, ast.For) and cnorm(n.iter) == "sorted(self.lut.items())" and isinstance(n.target, ast.Tuple) and [norm(e) for e in n.target.elts] == [b["__k"], b["__v"]]]
+        ok = len(loops) == 1
+        # recomputed exactly when the memo is None, and the memo is what is returned
+        sums = summarise(pid)
+        ok &= all(x.kind == "return" and x.value in ("self._unit_system_id",) or x.kind == "return" and x.value.startswith("str(") for x in sums)
+        ok &= any(x.has("self._unit_system_id is None", True) and any("self._unit_system_id = " in e for e in x.effects) for x in sums)
+        ok &= all(not any("self._unit_system_id = " in e for e in x.effects) for x in sums if x.has("self._unit_system_id is None", False))
+    res.check(ok, "registry-id", pid.where(), "the registry id is a digest of the sorted table contents (symbol and repr of the row), recomputed whenever the memo is None", rid=r1)
     cached = []
     for mod in repo.mods():
         for q, fns in mod.funcs.items():
